@@ -212,8 +212,8 @@ From Gecs Require Import OracleSim.
 
 (** For every declaration with distinct 8-bit archetype ids, every capacity list the library accepts and
     EVERY sequence of creations (any archetype, with growth and up to the capacity-limit panic),
-    destructions through an archetype with any issued handle (live, stale, of another archetype, or an
-    out-of-range reference; including the generation-overflow panic) and probes at world and archetype
+    destructions at world level or through an archetype with any issued handle (live, stale, of another
+    archetype, or an out-of-range reference; including the generation-overflow panic) and probes at world and archetype
     level with any issued handle, without wrapping_version: the specification oracle - the executable
     reading of C01 (accepted iff alive, designates itself), C02 (own latest values, destroy hands back the
     row), C03/C14 (ids), C08 (no handle twice) and C12 (limit) that decides these properties on
@@ -229,13 +229,14 @@ Theorem C01_the_model_refines_the_oracle_on_the_core_language : forall cfg d qs 
   spec_check cfg d qs (ONew caps :: ops) (run cfg d qs (ONew caps :: ops)) = None.
 Proof. exact core_language_refines_the_oracle. Qed.
 
-(** Non-vacuity: the history of C01_history_instance above is in the core language once its world-level
-    destroy and its ecs_iter_destroy! are replaced by archetype-level destroys. *)
+(** Non-vacuity: a history of the core language (creations with slot reuse, stale and foreign handles, an
+    out-of-range reference, world-level and archetype-level destroys and probes). *)
 Definition c01_core_ops : list op :=
   [OCreate 0 1%N; OCreate 0 2%N; ODestroy (LArch 0) KEnt TAny (RIssued 0); OProbe LWorld KEnt TAny (RIssued 0);
    OCreate 0 3%N; OProbe (LArch 0) KEnt TAny (RIssued 2); ODestroy (LArch 1) KEnt TAny (RIssued 2);
    ODestroy (LArch 0) KEnt TAny (RIssued 2); OCreate 1 4%N; OProbe LWorld KEnt TAny (RIssued 3); OProbe (LArch 0) KEnt TAny (RIssued 3);
-   ODestroy (LArch 0) KEnt TAny (RIssued 9)].
+   ODestroy (LArch 0) KEnt TAny (RIssued 9); ODestroy LWorld KEnt TAny (RIssued 3); ODestroy LWorld KEnt TAny (RIssued 3);
+   OProbe LWorld KEnt TAny (RIssued 3); OCreate 1 5%N].
 Example C01_core_language_instance :
   forallb (l0_op c01_decl) c01_core_ops = true /\
   spec_check (Config false true true) c01_decl [] (ONew [2; 2; 2; 2] :: c01_core_ops)
